@@ -308,7 +308,7 @@ def agent_run(params, obs):
         agents = {}
         stops = {'A': [], 'B': []}
         for name in ('A', 'B'):
-            cfg = th.make_config('dtn://agent-%s/' % name.lower(), segment_size_tx_initial=50)
+            cfg = th.make_config('dtn://agent-%s/' % name.lower(), segment_size_tx_initial=50, stop_on_close=bool(params.get('stop_on_close')))
             cfg.bus_service = None
             cfgs[name] = cfg
             with sim.as_node(name):
@@ -327,9 +327,12 @@ def agent_run(params, obs):
         sim.run(params['pre_steps'])
         for idx, path in enumerate(paths):
             hdl = agents['A'].handler_for_path(path) if path in agents['A']._path_to_handler else None
+            if params.get('asym') and idx != params['asym'] - 1:
+                continue    # the other contacts stay idle: they finish their termination while this one is still busy
             if hdl is not None and params['bundles']:
                 for bidx in range(params['bundles']):
-                    th._bus_call(sim, 'A', hdl, path, type(hdl).send_bundle_data, 'send_bundle_data', (dbus.ByteArray(payload_for('A', idx * 7 + bidx, 120)),))
+                    th._bus_call(sim, 'A', hdl, path, type(hdl).send_bundle_data, 'send_bundle_data',
+                                 (dbus.ByteArray(payload_for('A', idx * 7 + bidx, 6000 if params.get('asym') else 120)),))
         sim.run(params['mid_steps'])
         conns = th._bus_call(sim, 'A', agents['A'], '/org/ietf/dtn/tcpcl/Agent', type(agents['A']).get_connections, 'get_connections', ())
         n_open_before = len(list(conns))
@@ -373,6 +376,19 @@ def agent_run(params, obs):
             closed_paths = sorted(str(ev['args'][0]) for ev in closed)
             if opened_paths != closed_paths:
                 problems.append(('shutdown', 'agent %s: connection_opened for %s, connection_closed for %s' % (who, opened_paths, closed_paths)))
+            # shutdown() is the graceful end of every session: whatever was started on any contact is finished exactly once
+            for (started, finished) in (('send_bundle_started', 'send_bundle_finished'), ('recv_bundle_started', 'recv_bundle_finished')):
+                begun = {}
+                for ev in sim.hist.events:
+                    if ev['kind'] == 'signal' and ev.get('exported', True) and ev['member'] in (started, finished):
+                        key = (ev['node'], ev['path'], str(ev['args'][0]))
+                        rec = begun.setdefault(key, [0, 0])
+                        rec[0 if ev['member'] == started else 1] += 1
+                for key, (n_start, n_fin) in sorted(begun.items()):
+                    obs['agent_transfers_checked'] = obs.get('agent_transfers_checked', 0) + 1
+                    if n_start and n_fin != 1:
+                        problems.append(('shutdown', 'after shutdown() of agent %s (%d contacts): transfer %s on %s of node %s has %d %s and %d %s signal(s)' % (
+                            who, params['contacts'], key[2], key[1].rsplit('/', 1)[-1], key[0], n_start, started, n_fin, finished)))
     finally:
         tcpcl.agent.socket = orig
     return problems
@@ -508,6 +524,14 @@ def cases(tier, seed):
                     out.append(dict(id='agent-%d' % idx, kind='agent', contacts=contacts, who=who, pre_steps=pre[0], mid_steps=pre[1],
                                     bundles=bundles, seed=seed + idx, policy=['fair', 'rr', 'burst'][idx % 3], stagger=(idx % 2) * 15))
                     idx += 1
+    # one busy contact (a long multi-segment transfer under way), the others idle: they finish their termination first
+    for contacts in (2, 3):
+        for who in ('A', 'B'):
+            for asym in (1, contacts):
+                for policy in ('fair', 'rr'):
+                    out.append(dict(id='agent-asym-%d-%s-%d-%s' % (contacts, who, asym, policy), kind='agent', contacts=contacts, who=who, pre_steps=60,
+                                    mid_steps=25, bundles=1, asym=asym, seed=seed + contacts, policy=policy, stagger=0,
+                                    stop_on_close=(policy == 'rr')))
     out.append(dict(id='udp-benign', kind='udp', which='benign', seed=seed, mtu=None, sends=[10, 500]))
     out.append(dict(id='udp-benign-mtu', kind='udp', which='benign', seed=seed + 1, mtu=100, sends=[10, 99, 100, 400]))
     out.append(dict(id='udp-hostile', kind='udp', which='hostile', seed=seed + 2, mtu=None, sends=[]))
